@@ -94,6 +94,7 @@ fn main() {
         "reload" => run_engine(engines::reload::ReloadEngine::new(), mode, rest),
         "reloadloop" => run_engine(engines::reload::ReloadLoopEngine::new(), mode, rest),
         "control" => run_engine(engines::control::ControlEngine::new(), mode, rest),
+        "selhist" => run_engine(engines::selhist::SelHistEngine::new(), mode, rest),
         _ => {
             eprintln!("unknown engine {engine}");
             std::process::exit(2)
